@@ -95,15 +95,58 @@ type ioDriver struct {
 func (d *ioDriver) fail(sig, format string, a ...any) { d.x.Fail(sig, format, a...) }
 
 var portCounter int
+var portPool []int
 
-// ownPort returns a UDP port from a range that belongs to this process alone. multicast.NewUDPPeer sets
-// SO_REUSEPORT before it binds, and the kernel may give such a socket an ephemeral port that a reuse-port socket of
-// ANOTHER worker process already has: unicast datagrams are then spread over both sockets and multicast probes of
-// one worker reach the other. Explicit, process-private ports keep the workers apart.
+// ownPort returns a UDP port that belongs to this process alone. multicast.NewUDPPeer sets SO_REUSEPORT before it
+// binds, so two processes that pick the same port BOTH succeed and then share its traffic: unicast datagrams are spread
+// over both sockets and multicast probes of one reach the other — between the worker processes of one check, and
+// between checks that happen to run at the same time. Every process therefore claims its ports (48 of them, used in
+// rotation) through lock files created with O_EXCL that carry its pid; a lock whose owner is gone is taken over.
+// Ports are below the ephemeral range (32768..60999), so kernel-assigned ports of other sockets never collide.
 func ownPort() int {
 	portCounter++
-	// below the ephemeral range (32768..60999), so that kernel-assigned ports of other sockets never collide
-	return 20000 + (os.Getpid()%78)*160 + portCounter%160
+	if len(portPool) < 48 {
+		if p := claimPort(); p > 0 {
+			portPool = append(portPool, p)
+			return p
+		}
+		if len(portPool) == 0 {
+			engine.HarnessError("no free UDP port could be claimed under /dev/shm/verif-ports")
+		}
+	}
+	return portPool[portCounter%len(portPool)]
+}
+
+func claimPort() int {
+	dir := "/dev/shm/verif-ports"
+	os.MkdirAll(dir, 0o777)
+	me := os.Getpid()
+	for tries := 0; tries < 12000; tries++ {
+		port := 20000 + (me*131+portCounter*7+tries)%12000
+		path := fmt.Sprintf("%s/%d", dir, port)
+		f, err := os.OpenFile(path, os.O_CREATE|os.O_EXCL|os.O_WRONLY, 0o666)
+		if err == nil {
+			fmt.Fprintf(f, "%d", me)
+			f.Close()
+			return port
+		}
+		b, rerr := os.ReadFile(path)
+		var owner int
+		fmt.Sscanf(string(b), "%d", &owner)
+		if rerr == nil && owner == me {
+			return port
+		}
+		if rerr == nil && owner > 0 && syscall.Kill(owner, 0) == syscall.ESRCH {
+			// the owner is gone: take the lock over (remove, then create exclusively again — whoever wins owns it)
+			os.Remove(path)
+			if f, err := os.OpenFile(path, os.O_CREATE|os.O_EXCL|os.O_WRONLY, 0o666); err == nil {
+				fmt.Fprintf(f, "%d", me)
+				f.Close()
+				return port
+			}
+		}
+	}
+	return 0
 }
 
 // newOwnPeer creates a UDPPeer on a process-private port (host "" = all interfaces).
